@@ -196,18 +196,25 @@ func (ctx *context) ResolveAndCompile(pathname string, opts py.CompileOpts) (py.
 }
 
 func (ctx *context) pushBusy() error {
+	verifYield("push.enter")
+	defer verifYield("push.leave")
 	ctx.lifecycle.Lock()
 	defer ctx.lifecycle.Unlock()
+	verifYield("push.check")
 	if ctx.closed {
 		return py.ExceptionNewf(py.RuntimeError, "Context closed")
 	}
+	verifYield("push.add")
 	ctx.running++
 	return nil
 }
 
 func (ctx *context) popBusy() {
+	verifYield("pop.enter")
+	defer verifYield("pop.leave")
 	ctx.lifecycle.Lock()
 	defer ctx.lifecycle.Unlock()
+	verifYield("pop.dec")
 	ctx.running--
 	if ctx.running == 0 {
 		ctx.idle.Broadcast()
@@ -216,19 +223,27 @@ func (ctx *context) popBusy() {
 
 // See interface py.Context defined in py/run.go
 func (ctx *context) Close() error {
+	verifYield("close.enter")
 	ctx.closeOnce.Do(func() {
+		verifYield("close.once")
 		ctx.lifecycle.Lock()
+		verifYield("close.closing")
 		ctx.closing = true
 		for ctx.running > 0 {
 			ctx.idle.Wait()
 		}
+		verifYield("close.waited")
 		ctx.closed = true
 		ctx.lifecycle.Unlock()
+		verifYield("close.closed")
 
 		// Give each module a chance to release resources
 		ctx.store.OnContextClosed()
+		verifYield("close.callbacks")
 		close(ctx.done)
+		verifYield("close.done")
 	})
+	verifYield("close.return")
 	return nil
 }
 
